@@ -1,6 +1,7 @@
 """C10 — every server reply is a valid SMTP reply whatever text is embedded in it."""
 import json, os
 import vlib, extract
+import importlib.util
 from vlib import hexs
 
 REQUIRED = ['writen_valid', 'writen_no_fault', 'valid_reply_no_bare_crlf', 'multiline_is_concat', 'templates_in_contract']
@@ -89,7 +90,10 @@ def pred(case, impl):
 def run(ctx):
     vlib.lean_prepare(ctx, REQUIRED)
     g = extract.Gen(vlib.SRC)
-    templates = [t for _, t in extract.reply_templates(g)]
+    import sys, os
+    sys.path.insert(0, os.path.join(vlib.VERIF, 'tools', 'gen'))
+    import netio as gen_netio_mod
+    templates = [t for _, t in gen_netio_mod.reply_templates(g)]
     bad = [t for t in templates if not (3 < len(t) < 510)]
     if bad:
         ctx.unshown.append('reply template outside the contract 3 < |s0| < 510: %r' % bad[0][:40])
